@@ -451,10 +451,15 @@ def weave_attr(fs, full, probe):
         body.append(t)
     txt = "\n".join(body).rstrip()
     if probe:
-        if re.search(r"\bensures\b", txt):
-            txt = txt.rstrip().rstrip(",") + ",\n        false /*VX_PROBE*/,"
+        ls = txt.split("\n")
+        di = next((k for k, l in enumerate(ls) if l.strip().startswith("decreases")), None)
+        head = "\n".join(ls[:di]) if di is not None else txt
+        tail = ("\n" + "\n".join(ls[di:])) if di is not None else ""
+        if re.search(r"\bensures\b", head):
+            head = head.rstrip().rstrip(",") + ",\n        false /*VX_PROBE*/,"
         else:
-            txt = txt + "\n    ensures false /*VX_PROBE*/,"
+            head = head.rstrip().rstrip(",") + ("," if head.strip() and not head.strip().endswith("=>") else "") + "\n    ensures false /*VX_PROBE*/,"
+        txt = head + tail
     first = lines[0][0] if lines else fs.line
     return ("\n" + "".join(a + " " for a in fs.attrs) + "#[verus_spec(" + txt + "\n)]\n", ("spec", fs.specfile, first - 1, full, fs.props))
 
